@@ -301,7 +301,23 @@ func (e *Evaluator) compute(fr *frame, v ssa.Value) V {
 			if r, ok := fr.mem[x.X]; ok {
 				return r
 			}
-			if _, ok := x.X.(*ssa.Alloc); ok {
+			if a, ok := x.X.(*ssa.Alloc); ok {
+				// a fresh cell holds the zero value of its type
+				if pt, isP := a.Type().Underlying().(*types.Pointer); isP {
+					switch et := pt.Elem().Underlying().(type) {
+					case *types.Basic:
+						switch {
+						case et.Info()&types.IsBoolean != 0:
+							return bV(false)
+						case et.Info()&types.IsInteger != 0:
+							return iV(0)
+						case et.Info()&types.IsString != 0:
+							return cV(constant.MakeString(""))
+						}
+					case *types.Pointer, *types.Interface, *types.Slice, *types.Map, *types.Chan, *types.Signature:
+						return nilV
+					}
+				}
 				return unkV
 			}
 			if g, ok := x.X.(*ssa.Global); ok {
